@@ -87,7 +87,8 @@ var awkwardLinks = []string{
 	"https://media.example/-rf", "https://media.example/'quoted'", "https://media.example/\"dq\"", "https://media.example/%25mimetype",
 	"https://media.example/;rm", "https://media.example/a%20b", "https://media.example/ü", "https://media.example/`x`",
 }
-var awkwardMimes = []string{"image/png", "video/mp4", "audio/ogg", "text/html", "application/x-%url", "image/svg+xml", "video/x-$(id)", "", "", "image/jpeg; charset=x"}
+var awkwardMimes = []string{"image/png", "video/mp4", "audio/ogg", "text/html", "application/x-%url", "image/svg+xml", "video/x-$(id)", "", "", "image/jpeg; charset=x",
+	"%url/png", "image/%url", "%mimetype/%subtype", "%supertype/%url", "video/%mimetype"}
 
 func (tn *Town) link(kind string) TLink {
 	t := tn.f.t
